@@ -56,6 +56,8 @@ def rstmt(s):
         return (".define %s 0x%x" if s["n"] in ("DH", "DW", "DM") else ".define %s %d") % (s["n"], s["v"] & 0xffffffff)
     if k == "label":
         return "%s:" % s["n"]
+    if k == "note":
+        return "/* not a statement:\n%s\n   end of the comment */" % {"else": ".else", "endif": ".endif", "ifdef": ".ifdef DX"}[s["d"]]
     raise ValueError(k)
 
 
